@@ -50,6 +50,10 @@ Get(heap, fid, n) == LET f == FindFrame(heap, fid, n) IN
 Set(heap, fid, n, v) == LET f == FindFrame(heap, fid, n) IN
                      IF f = 0 THEN heap
                      ELSE [heap EXCEPT ![f].vars[LookupF(heap[f].vars, n, 1)].v = v]
+\* a function defined while the program runs, (defun name ...) evaluated as a form: the global frame binds the pseudo-variable
+\* "#f:<name>" to a closure over the environment the defun form is evaluated in; a later defun of the name replaces it
+DefGlobal(heap, n, v) == LET i == LookupF(heap[1].vars, n, 1) IN
+                         IF i > 0 THEN [heap EXCEPT ![1].vars[i].v = v] ELSE [heap EXCEPT ![1].vars = Append(@, [n |-> n, v |-> v])]
 RECURSIVE FindDef(_,_,_)
 FindDef(defs, name, i) == IF i > Len(defs) THEN 0 ELSE IF defs[i].name = name THEN i ELSE FindDef(defs, name, i+1)
 
@@ -113,6 +117,9 @@ SumOf(args) == IF args = <<>> THEN 0 ELSE args[1].v + SumOf(Tail(args))
 \* applying a function value to argument values: a closure or a named function
 Apply(m, f, args, caller) ==
   IF f.k = "clo" THEN Body(Push(CallFrame(m, f.env, Bindings(f.ps, args), caller), [k |-> "fnbody"]), f.body, Len(m.heap) + 1)
+  ELSE IF f.k = "fn" /\ Get(m.heap, 1, "#f:" \o f.name).k = "clo"
+       THEN LET c == Get(m.heap, 1, "#f:" \o f.name) IN
+            Body(Push(CallFrame(m, c.env, Bindings(c.ps, args), caller), [k |-> "fnbody"]), c.body, Len(m.heap) + 1)
   ELSE IF f.k = "fn" /\ FindDef(m.defs, f.name, 1) > 0
        THEN LET d == m.defs[FindDef(m.defs, f.name, 1)] IN
             Body(Push(CallFrame(m, 1, Bindings(d.ps, args), caller), [k |-> "fnbody"]), d.body, Len(m.heap) + 1)
@@ -168,6 +175,9 @@ StepEval(m) ==
     \* the implementation expands - every time the form is evaluated from its list form - and the expansion, which the
     \* machine evaluates; the templates use each argument once)
     [] n.k = "mcall" -> Ev(m, n.exp, m.env)
+    \* (defun name (ps) body) as a form, anywhere: the function closes over the bindings in force where the form is evaluated -
+    \* every time it is evaluated, also when the text is the same as last time
+    [] n.k = "defun" -> Ret([m EXCEPT !.heap = DefGlobal(m.heap, "#f:" \o n.name, [k |-> "clo", ps |-> n.ps, body |-> n.body, env |-> m.env])], Nil)
     [] n.k = "held" -> Ev(Push(m, [k |-> "held"]), n.e, m.env)
     \* (close stream) inside the body: the stream is closed from then on; leaving the with-open-file form afterwards, in
     \* whatever way, is what it would have been (the value, the exit or the condition are the body's)
